@@ -12,18 +12,22 @@ import (
 func storeSetRule(o *Ob) {
 	e := o.E
 	fn := o.Fn("(*am/store.Alerts).Set")
+	// the writes of the alert map (one, or one per path)
+	var mus []ssa.Instruction
 	var mu *ssa.MapUpdate
 	for _, in := range AllInstrs(fn) {
 		if m, ok := in.(*ssa.MapUpdate); ok && e.X(fn, m.Map) == "recv.alerts" {
-			o.Check(mu == nil, "set-two-writes", "Set writes the alert map at more than one site", in)
+			mus = append(mus, m)
 			mu = m
+			o.Site(m, "alerts[fp] = alert")
+			fpOK := strings.HasPrefix(e.X(fn, m.Key), "(*model.Alert).Fingerprint(p0") && e.X(fn, m.Value) == "p0"
+			o.Check(fpOK, "set-write-shape", "Set must store the alert under its own fingerprint", m)
+			held, why := e.HeldAt(m, fn.Params[0], "Mutex", 'W', 0)
+			o.Check(held, "set-lock", "Set writes without the store mutex: "+why, m)
 		}
 	}
 	o.Require(mu != nil, "set-write", "Set no longer stores the alert", nil)
-	o.Site(mu, "alerts[fp] = alert")
-	fpOK := strings.HasPrefix(e.X(fn, mu.Key), "(*model.Alert).Fingerprint(p0") && e.X(fn, mu.Value) == "p0"
-	o.Check(fpOK, "set-write-shape", "Set must store the alert under its own fingerprint", mu)
-	isW := IsInstr(mu)
+	isW := IsInstr(mus...)
 	dest := L("recv.destroyed", true)
 	limOn := L("(recv.perAlertLimit < 1)", false)
 	up := LRe(`\(\*am/limit\.Bucket\[V\]\)\.Upsert\(.*, \(\*model\.Alert\)\.Fingerprint\(p0(\.Alert)?\), p0(\.Alert)?\.EndsAt\)`, true)
@@ -33,8 +37,6 @@ func storeSetRule(o *Ob) {
 		{Name: "limit admits", Assume: A(dest.Neg(), limOn, up), Ret: [][]string{Vals("nil")}, Must: []func(ssa.Instruction) bool{isW}},
 		{Name: "no limit", Assume: A(dest.Neg(), limOn.Neg()), Ret: [][]string{Vals("nil")}, Must: []func(ssa.Instruction) bool{isW}},
 	})
-	held, why := e.HeldAt(mu, fn.Params[0], "Mutex", 'W', 0)
-	o.Check(held, "set-lock", "Set writes without the store mutex: "+why, mu)
 	// the bucket is the one for the alert's name, created with the configured capacity
 	for _, in := range AllInstrs(fn) {
 		if m, ok := in.(*ssa.MapUpdate); ok && e.X(fn, m.Map) == "recv.limits" {
